@@ -67,6 +67,7 @@ func main() {
 		}
 		names := sortedKeys(m.funcs)
 		fmt.Println(len(names), "functions")
+		fmt.Println("no escaping pointers into slice/array elements:", m.noElemPtrs, m.elemPtrSites)
 	case "funcs":
 		for _, n := range sortedKeys(m.funcs) {
 			fmt.Println(n)
